@@ -11,8 +11,9 @@ CONSTANTS
   MaxArr = 3
   MaxT = 1
   REPS = {1}
+  Garbage = FALSE
   Staged = FALSE
   PsFree = FALSE
   InitSets = {{"p1", "p2"}}
 VIEW View
-INVARIANTS InvAtMostOne InvIsLatest InvValidUnexpiredMember InvNoFalseAlarm InvAlertOnce InvReported InvForgotten InvObserverSane
+INVARIANTS InvAtMostOne InvIsLatest InvValidUnexpiredMember InvNoFalseAlarm InvAlertOnce InvReported InvForgotten InvUsed InvObserverSane
